@@ -63,7 +63,9 @@ class World:
         k = len(self.aero)
         rec = {"alpha": SR(z3.Real("aero_alpha!%d" % k)), "beta": SR(z3.Real("aero_beta!%d" % k)), "V": SR(z3.Real("aero_V!%d" % k)),
                "xs": xs, "x": [SR(v) for v in xs]}
-        ctx().assumptions.append(z3.Real("aero_V!%d" % k) > 0)
+        Vk = z3.Real("aero_V!%d" % k)
+        # contract of the real pair: V is the magnitude of the air-relative velocity
+        ctx().assumptions.append(z3.And(Vk > 0, Vk * Vk == xs[0] * xs[0] + xs[1] * xs[1] + xs[2] * xs[2]))
         rec["abv"] = [simp(zexpr(rec[n])) for n in ("alpha", "beta", "V")]
         self.aero.append(rec)
         return rec
@@ -80,6 +82,7 @@ class World:
         k = len(self.aero)
         xs = [z3.Real("aero_x!%d_%d" % (k, i)) for i in range(3)]
         rec = {"alpha": SR(abv[0]), "beta": SR(abv[1]), "V": SR(abv[2]), "abv": abv, "xs": xs, "x": [SR(v) for v in xs]}
+        ctx().assumptions.append(abv[2] * abv[2] == xs[0] * xs[0] + xs[1] * xs[1] + xs[2] * xs[2])
         self.aero.append(rec)
         return rec
 
@@ -337,6 +340,41 @@ def patch_classes():
     SC.Scene.solve_forces = solve_forces
     AP.Airplane.get_aerodynamic_state = get_aerodynamic_state
     AP.Airplane.set_aerodynamic_state = set_aerodynamic_state
+    # euler_to_quat: real function + proven lemma |q| = 1 (from sin^2+cos^2 = 1 of the half-angle atoms); the proven
+    # sum-of-squares term is registered so that the normalisation in Airplane.set_state simplifies to q itself
+    import machupX.helpers as H
+    _patched["e2q"] = (H.euler_to_quat, SC.euler_to_quat, AP.euler_to_quat)
+    real_e2q = H.euler_to_quat
+
+    def euler_to_quat(E):
+        q = real_e2q(E)
+        from symx.values import is_sym
+        if is_sym(q):
+            c = ctx()
+            key = tuple(simp(zexpr(comp)).get_id() for comp in q)
+            cache = c.__dict__.setdefault("_e2q_cache", {})
+            if key in cache:
+                return cache[key]
+            e = None
+            for comp in q:
+                t = zexpr(comp) * zexpr(comp)
+                e = t if e is None else e + t
+            from symx.rel import cone_defs
+            if smt.entails(cone_defs(c, [e]), e == 1, 20000):
+                # cut point: the proven lemma |q| = 1 is all later reasoning needs; name the components (definitions kept for the record)
+                k = len(cache)
+                names = [z3.Real("Qe!%d_%d" % (k, i)) for i in range(4)]
+                c.__dict__.setdefault("cut_defs", []).extend([n == zexpr(comp) for n, comp in zip(names, q)])
+                qn = facade.wrap(np.array([SR(n) for n in names], dtype=object))
+                c.declare_unit([SR(n) for n in names])
+                c.notes.append("cut: euler_to_quat result named Qe!%d (unit norm proven from sin^2+cos^2=1)" % k)
+                cache[key] = qn
+                return qn
+            cache[key] = q
+        return q
+    H.euler_to_quat = euler_to_quat
+    SC.euler_to_quat = euler_to_quat
+    AP.euler_to_quat = euler_to_quat
 
 
 def unpatch_classes():
@@ -347,6 +385,8 @@ def unpatch_classes():
     SC.Scene.solve_forces = _patched.pop("solve_forces")
     AP.Airplane.get_aerodynamic_state = _patched.pop("get")
     AP.Airplane.set_aerodynamic_state = _patched.pop("set")
+    import machupX.helpers as H
+    H.euler_to_quat, SC.euler_to_quat, AP.euler_to_quat = _patched.pop("e2q")
 
 
 class real_classes:
@@ -371,3 +411,15 @@ def new_world():
     w.aero_calls = []
     Env.world = w
     return w
+
+
+def sliced_facts(c, goal, extra=()):
+    """assumptions + the path-condition literals that share a variable with the goal + cone-of-influence definitions of
+    everything selected.  Dropping facts is sound for proving (fewer premises)."""
+    from symx.rel import cone_defs, vars_of
+    gv = set(vars_of(goal).keys())
+    for d in cone_defs(c, [goal]):
+        gv |= set(vars_of(d).keys())
+    lits = [lit for lit in c.pc if gv & set(vars_of(lit).keys())]
+    small = [a for a in c.assumptions if len(vars_of(a)) <= 12]
+    return small + lits + cone_defs(c, [goal] + lits + small)
